@@ -332,6 +332,14 @@ def d21():
     return any(x[2] == 73 and x[3] == 4 for x in n), f"loaded notes {n}; the note 73..77 is missing"
 
 
+@witness("D22", ["C09"])
+def d22():
+    s = seq_rel([ron(60), w(48), roff(60), w(48)])
+    bars = Sequence.sequences_split_bars([s], quantise_note_lengths=True)
+    n = notes_of(bars[0][0].sequence)
+    return n == [(0, 60, 0, 48, 100)], f"a half note (48 ticks) lying inside one 4/4 bar comes out as {n}: the default note values end at 36"
+
+
 def run(ids=None):
     res = {}
     for k, (props, f) in W.items():
